@@ -72,9 +72,9 @@ type FunDecl struct {
 	Name   string
 	Params []BoundVar
 	Ret    string
-	Body   *Expr  // nil for uninterpreted
-	Rec    bool   // recursive: axiom instead of define-fun
-	Inline bool   // macro: expanded at the use site (may read heap and ghost state)
+	Body   *Expr // nil for uninterpreted
+	Rec    bool  // recursive: axiom instead of define-fun
+	Inline bool  // macro: expanded at the use site (may read heap and ghost state)
 	Where  string
 }
 
@@ -95,10 +95,10 @@ type LemmaDecl struct {
 	Requires []Clause
 	Ensures  []Clause
 	// induction variable name (int): the hypothesis is the lemma at var-1
-	Induct string
-	Where  string
-	Props  []string
-	Hints  []*Expr // instances of earlier lemmas to assume: name(args...)
+	Induct   string
+	Where    string
+	Props    []string
+	Hints    []*Expr // instances of earlier lemmas to assume: name(args...)
 	Triggers [][]*Expr
 }
 
